@@ -430,7 +430,7 @@ func c03References(r *core.Run, x *explore.X) {
 	var shapes []shapeDef
 	for _, s := range shapesFor(kind) {
 		switch s.name {
-		case "pure-ref-loop", "dangling-internal", "dangling-file", "dangling-fragment-in-file", "wrong-kind-internal", "wrong-kind-in-file":
+		case "pure-ref-loop", "dangling-internal", "dangling-file", "dangling-fragment-in-file", "wrong-kind-internal", "wrong-kind-in-file", "deep-pointer:additionalProperties/properties/missing":
 			continue
 		}
 		shapes = append(shapes, s)
